@@ -33,6 +33,8 @@ def violation_record(h, i, clause, extra):
     op = h[i] if 0 <= i < len(h) else {}
     brief = {k: op.get(k) for k in ("op", "fmt", "r", "set", "edit", "opts") if k in op}
     kind = C.CLAUSES[clause] + (":" + op["fmt"] if clause in (3, 4) and op.get("fmt") else "")
+    if clause == 8:
+        kind = "hashseed-dependent-result:" + str(op.get("fmt") or op.get("op"))
     rec = {"kind": kind, "what": "%s: op %d %s in [%s]" % (WHAT.get(clause, str(clause)), i, json.dumps(brief)[:200],
                                                                         C.describe_history(h)),
            "input": h, "history": h, "op_index": i, "clause": clause, "replay": "history",
